@@ -10,6 +10,7 @@ implementations of that interface.
 
 
 import base64
+import binascii
 import hmac
 import random
 import re
@@ -316,7 +317,10 @@ class DigestCredentialFactory:
             clientip = clientip.encode("ascii")
 
         # Verify the key
-        key = base64.b64decode(opaqueParts[1])
+        try:
+            key = base64.b64decode(opaqueParts[1], validate=True)
+        except binascii.Error:
+            raise error.LoginFailed("Invalid response, invalid opaque value")
         keyParts = key.split(b",")
 
         if len(keyParts) != 3:
